@@ -42,8 +42,12 @@ def gen_var(rng, axes, dims, fmt, vkind=None):
             for i in range(n):
                 if rng.random() < 0.3:
                     flat[i] = np.nan
+    attrs = rand_attrs(rng)
+    if vkind != 's' and rng.random() < 0.25:
+        # CF-style missing value marker (never present in the data here): becomes the variable's fill value on disk
+        attrs["missing_value"] = -999.5 if vkind in ('f', 'fn') else -999
     return {"dims": list(dims), "labels": [list(axes[d][0]) for d in dims], "kinds": [axes[d][1] for d in dims], "values": v,
-            "vkind": vkind, "attrs": rand_attrs(rng)}
+            "vkind": vkind, "attrs": attrs}
 
 
 def gen_axes(rng, dims, fmt, maxsize=4, minsize=1):
@@ -129,6 +133,8 @@ class FileModel(object):
 
 def attrs_equal(got, exp):
     """compare attribute dicts by value (lists come back as ndarrays, numbers as numpy scalars)"""
+    if "missing_value" in exp and "_FillValue" in got and "_FillValue" not in exp:
+        got = {k: v for k, v in got.items() if k != "_FillValue"}      # the library turns missing_value into the on-disk fill value
     if set(got.keys()) != set(exp.keys()):
         return "attribute names %r, expected %r" % (sorted(got.keys()), sorted(exp.keys()))
     for k, e in exp.items():
